@@ -39,7 +39,7 @@ def _class(direction, state, cname):
     return getattr(mod, cname)
 
 
-def core_packet(ctx, pv, sentinel=False):
+def core_packet(ctx, pv, sentinel=False, lite=False):
     from minecraft.networking.connection import ConnectionContext
     from minecraft.networking.types import VarInt
     import minecraft.networking.types as t
@@ -58,10 +58,13 @@ def core_packet(ctx, pv, sentinel=False):
     if P not in mod_packets:
         return z3.BoolVal(False)
     vals, refvals = {}, []
+    nstr = 0
     for fname, tag in lay:
         nm = '%s' % fname
         if tag == 'varint':
-            v = ctx.int(nm, 0, (1 << 32) - 1)
+            # quick tier: one- and two-byte VarInts (each VarInt field
+            # otherwise forks into five length classes)
+            v = ctx.int(nm, 0, (1 << 14) - 1 if lite else (1 << 32) - 1)
             rv = E(v)
         elif tag in ('ubyte', 'byte', 'ushort', 'short', 'int', 'long'):
             lo, hi = {'ubyte': (0, 255), 'byte': (-128, 127),
@@ -80,7 +83,8 @@ def core_packet(ctx, pv, sentinel=False):
             v = fp.float32(ctx, nm)
             rv = fp.F(v)
         elif tag == 'string':
-            v = sstr.ctx_str(ctx, nm, 1)
+            nstr += 1
+            v = sstr.ctx_str(ctx, nm, 1, ascii_only=lite and nstr > 1)
             rv = sstr.SStr.of(v).cps
         elif tag == 'strings':
             v = [sstr.ctx_str(ctx, nm + '[0]', 1)]
@@ -141,8 +145,9 @@ def core_packet(ctx, pv, sentinel=False):
 def instances(tier, seed):
     out = []
     for pv in ref.RELEASES:
-        out.append(Instance('release:%d' % pv, 'core_packet', {'pv': pv},
-                            W=96, budget_s=1800, witness_every=3))
+        out.append(Instance('release:%d' % pv, 'core_packet',
+                            {'pv': pv, 'lite': tier != 'thorough'},
+                            W=96, budget_s=3000, witness_every=3))
     out.append(Instance('sentinel:release:757', 'core_packet',
                         {'pv': 757, 'sentinel': True}, W=96,
                         expect='violation',
